@@ -83,8 +83,8 @@ class Closure:
 
 
 class Inline:
-    def __init__(self, func, args):
-        self.func, self.args = func, args
+    def __init__(self, func, args, post=None):
+        self.func, self.args, self.post = func, args, post     # post: name of a registered post-processor applied to the return value
 
 
 class Fork:
@@ -114,11 +114,13 @@ class Frame:
         self.locals = {}
         self.ret = ret          # (lhs place, next bb) in the caller
         self.bb = 'bb0'
+        self.post = None
 
     def __deepcopy__(self, memo):
         f = Frame(self.fn, self.ret)
         memo[id(self)] = f
         f.fid = self.fid
+        f.post = self.post
         f.bb = self.bb
         f.locals = copy.deepcopy(self.locals, memo)
         return f
@@ -709,6 +711,7 @@ class Exec:
             if t == 'return':
                 rv = fr.locals.get('_0', [])
                 st.frames.pop()
+                if fr.post is not None: rv = POSTS[fr.post](self, rv)
                 if not st.frames:
                     self.finish(st, rv, 'return'); return
                 caller = st.frames[-1]
@@ -776,6 +779,7 @@ class Exec:
         fr = st.frames[-1]
         if isinstance(r, Inline):
             nf = Frame(r.func, (lhs, nxt))
+            nf.post = r.post
             if len(r.args) != len(r.func.params):
                 # closures called through Fn* traits pass (closure, (args,)) — spread the tuple
                 if len(r.func.params) >= 1 and len(r.args) == 2 and isinstance(r.args[1], list) and len(r.args[1]) + 1 == len(r.func.params):
@@ -817,6 +821,9 @@ class Exec:
         self.write(fr, lhs, r)
         fr.bb = nxt
         return True
+
+
+POSTS = {'not': lambda ex, v: Not(v)}
 
 
 class _Variant:
